@@ -41,7 +41,8 @@ ASSUMPTIONS = ['the model driver is the compiled form of the verified definition
                'does not exist, whose target is a bare string, or that renames/re-arguments something that is not a '
                'command/environment is not applied (harness vocabulary)',
                'an edit that the API refuses (insertion into / deletion from a plain command, .string of a node that has none, '
-               'list errors of TexArgs) is a no-op of the reference; an index beyond the end appends (list.insert)']
+               'list errors of TexArgs) is a no-op of the reference; an index beyond the end appends, a negative index counts '
+               'from the end and is clamped at the front (list.insert)']
 
 QUERY_EXTRA = ['zzz', 'x', 'item']
 
@@ -207,7 +208,7 @@ def correspondence(ctx):
               'answered by the model as .setArgs of the plain-list result (ArgsEdit.lean), a list operation that raises must '
               'be a refused step on both sides; kept slices (a slice is a copy) likewise; a whole parsed document as new '
               'material occurs in the last step only and then only the serialisations are compared (the model splices its '
-              'elements where the implementation nests its root); insertion indices beyond the end; ~12%% of the new nodes are taken '
+              'elements where the implementation nests its root); insertion indices beyond the end and negative ones (resolved once like list.insert: pyInsertIndex); ~12%% of the new nodes are taken '
               'from inside an argument / group / \\item of a snippet) on lib_edit.gen_doc documents; %d transplant histories '
               '(lib_edit.gen_transplant without copies: such a node is appended / inserted / put in place of a node, often '
               'next to a textual twin, and later steps delete / replace it at its new place); the snippet documents must '
@@ -320,6 +321,10 @@ FIXED_HISTORIES = [
     # several pieces inserted at an index beyond the end arrive in the given order
     ('\\begin{a}\\x\\y\\end{a}\\x', ['ins b0 12 n:' + enc('\\p{1}') + ',s:' + enc('txt') + ',n:' + enc('\\q{2}'),
                                     'ins r 1000 n:' + enc('\\p{1}') + ',s:' + enc('P'), 'del b0.b4', 'ins b0 99 s:-,n:' + enc('\\x') + ',s:' + enc('z')]),
+    # several pieces at a negative index stay together, in order, where list.insert resolves the index to
+    ('\\begin{a}\\x\\y\\end{a}\\x', ['ins b0 -1 n:' + enc('\\p{1}') + ',n:' + enc('\\q{2}'),
+                                    'ins b0 -2 n:' + enc('\\p{1}') + ',s:' + enc('T') + ',n:' + enc('\\q{2}'),
+                                    'ins r -99 s:' + enc('A') + ',s:' + enc('B'), 'ins b2 -8 s:-,n:' + enc('\\x'), 'del b2.b0']),
     # a whole parsed document as one piece: all of its text, blank-only tokens included
     ('\\section{A}\\x tail', ['rep b1 d:' + enc('\\alpha \\beta'), 'ins r 0 s:' + enc('Fig. ') + ',d:' + enc('\\a{1}\n\\b{2}\n'),
                               'app r d:' + enc(' '), 'del b0']),
@@ -435,7 +440,8 @@ def oracle(ctx, seeds, scale):
               'remove/reverse/clear/slice/permutation and the own list put back after nothing/reverse/pop/insert/append on it '
               'in place, slices kept across an in-place edit (keep = args[lo:hi], every bound shape; edit args; keep holds '
               'the old elements; args = keep) and edits of a kept slice, whole parsed documents as one piece of new material '
-              '(all of their text must arrive), several pieces inserted at indices beyond the end (in the given order), ~10%% refused ops; 30%% of the new plain strings are LaTeX source - lib_edit.SRC_STRS: blank between '
+              '(all of their text must arrive), several pieces inserted at indices beyond the end (in the given order) and at negative indices (together, in order, '
+              'at the place list.insert resolves the index to), ~10%% refused ops; 30%% of the new plain strings are LaTeX source - lib_edit.SRC_STRS: blank between '
               'command and group, bare token after a fixed-signature command, unbalanced fragments, lone backslash, comment - '
               'and must be spliced in verbatim as one text leaf; the empty string occurs among several pieces); %d transplant histories (lib_edit.gen_transplant '
               'without copies: a node taken from inside an argument / group / \\item body of a separately parsed snippet is '
